@@ -10,7 +10,7 @@ closes, any number of sessions, any capability configuration.  Client side: mode
 clock ticks, any TTLs.  Nothing here is bounded.
 
 Both models describe the REPAIRED tree (fixes/F07-cache-generation.patch,
-fixes/F16-listen-cleanup-by-id.patch).  The counter-example at the end shows that
+fixes/F19-listen-cleanup-by-id.patch).  The counter-example at the end shows that
 `list_after_notification_fresh` is false for the cache of the pinned commit (F7).
 -/
 namespace Notify
